@@ -155,7 +155,7 @@ CHECKS["C05"] = dict(
           "not, every nphase/nblock: extendPol returns ok, N_ext rows, and for each column the unique polynomial f of degree < N with "
           "f(w_dn^j) = in[j] satisfies out[k] = f(7*w_de^k) (coset shift 7 = the library's SHIFT, proved); uniqueness of the interpolant. "
           "The pinned tree violated this (D8: even effective nphase hit assert(0) 'not implemented'; found with replay, repaired by a fix: "
-          "commit that implements the zero-extending in-place bit reversal, which the theorem now covers). Tie: correspondence vs code vs LDE reference. ALSO: C05_generated_extendPol — the GENERATED extendPol (translated from the source on every run) satisfies the low-degree-extension statement on any reachable cache state; C05_generated_computeR."),
+          "commit that implements the zero-extending in-place bit reversal, which the theorem now covers). Tie: correspondence vs code vs LDE reference. ALSO: C05_generated_extendPol — the GENERATED extendPol (translated from the source on every run) satisfies the low-degree-extension statement on any reachable cache state; C05_generated_computeR. ALSO (third bridge round): extendPol WITH a caller scratch buffer is bridged bit for bit too (C05_generated_extendPol_buffer_eq_model / _buffer_all), every nblock, every cache state, in place or not."),
     technique="Lean 4 proof (refinement to low-degree extension on the coset) over a hand-written model + differential correspondence",
     design="§4 C05", note=NOTE_NTT)
 CHECKS["C19"] = dict(
@@ -163,7 +163,7 @@ CHECKS["C19"] = dict(
           "included) on one object, the k-th result equals the result of the same call on a freshly constructed object "
           "(C19_history_eq_fresh); the only mutable state is the extendPol coefficient cache, which keeps the invariant 'absent or computeR of "
           "the N it is keyed with'; NTT/INTT neither read nor change it. The pinned tree violated this (D9: stale cache after a change of N; "
-          "repaired by a fix: commit). Tie: histories of up to 6 calls on shared vs fresh objects, model vs code. ALSO: C19_generated_extendPol_ignores_cache for the generated model; the generated cache refresh equals refreshCache (absent / valid / stale); whole histories are compared by execution (generated model vs code vs hand model)."),
+          "repaired by a fix: commit). Tie: histories of up to 6 calls on shared vs fresh objects, model vs code. ALSO: C19_generated_extendPol_ignores_cache for the generated model; the generated cache refresh equals refreshCache (absent / valid / stale); whole histories are compared by execution (generated model vs code vs hand model). ALSO (third bridge round): histories of GENERATED calls with caller buffers and dst == NULL preserve the object invariant and deliver the hand model's results (C19_generated_history_buffers), and a history followed by the generated DESTRUCTOR releases exactly the object's blocks and leaves every caller block as the history left it (C19_generated_life_then_dtor)."),
     technique="Lean 4 proof by invariant over call histories (refinement: shared object = fresh object) + differential correspondence of histories",
     design="§4 C19", note=NOTE_NTT)
 
